@@ -23,7 +23,10 @@ func famMatches(trig, fam string) bool {
 	return fam == trig || strings.HasPrefix(fam, trig+".") || strings.HasPrefix(fam, trig+"#")
 }
 
-func (q *QHyp) instance(js []*Term) *Term {
+// instance builds (once) the instance of q for the given values. Well-formedness facts that
+// evaluating the body assumes about the values it loads are part of the instance: they are
+// stated long after the obligations that use the instance were generated.
+func (q *QHyp) instance(c *VCtx, js []*Term) *Term {
 	k := ""
 	for _, j := range js {
 		k += fmt.Sprintf("%d,", j.id)
@@ -31,7 +34,14 @@ func (q *QHyp) instance(js []*Term) *Term {
 	if t, ok := q.cache[k]; ok {
 		return t
 	}
+	var side []*Term
+	saved := c.capture
+	c.capture = &side
 	t := q.body(js)
+	c.capture = saved
+	if len(side) > 0 {
+		t = And(append([]*Term{t}, side...)...)
+	}
 	q.cache[k] = t
 	return t
 }
@@ -141,7 +151,7 @@ func (c *VCtx) assertsFor(o *Obligation, seedAll bool, focused ...bool) []*Term 
 						candSeen[ck] = true
 						cands[[2]int{q.idx, vi}] = append(cands[[2]int{q.idx, vi}], j)
 						if q.nvars == 1 {
-							if inst := q.instance([]*Term{j}); !inst.IsTrue() {
+							if inst := q.instance(c, []*Term{j}); !inst.IsTrue() {
 								added = append(added, inst)
 								qstat[q.idx]++
 							}
@@ -157,7 +167,7 @@ func (c *VCtx) assertsFor(o *Obligation, seedAll bool, focused ...bool) []*Term 
 							if vi == 1 {
 								js = []*Term{o2, j}
 							}
-							if inst := q.instance(js); !inst.IsTrue() {
+							if inst := q.instance(c, js); !inst.IsTrue() {
 								added = append(added, inst)
 								qstat[q.idx]++
 							}
@@ -419,6 +429,28 @@ func prepareObligation(c *VCtx, o *Obligation, mode Mode, opt solveOpts) {
 					o.anteFile = fn
 				}
 			}
+		}
+	}
+	// stage S: only the hypotheses that share uncommon symbols with the goal (two hops). Fewer
+	// hypotheses can only make the query weaker, so an unsat answer stands.
+	if len(as) > 150 {
+		var base []*Term
+		if o.NQ > 0 {
+			base = c.assertsFor(o, false, true)
+		} else {
+			base = as
+		}
+		if sl := sliceRelevant(base, o); len(sl)*10 < len(base)*7 {
+			for _, abs := range []bool{true, false} {
+				AbstractBits = abs && mode == ModeInt
+				if textS, errS := Query(mode, sl, nil); errS == nil && len(textS) < 40<<20 && (!abs || QueryUsedAbstraction) {
+					fileCounter++
+					fn := filepath.Join(opt.workdir, fmt.Sprintf("q%05d_slice.smt2", fileCounter))
+					os.WriteFile(fn, []byte(textS), 0o644)
+					o.FocusFiles = append(o.FocusFiles, fn)
+				}
+			}
+			AbstractBits = false
 		}
 	}
 	if o.NQ > 0 {
@@ -688,12 +720,6 @@ func runObligationAgain(o *Obligation, opt solveOpts) {
 		files = append(files, o.AbstractFile)
 	}
 	files = append(files, o.QueryFile)
-	if o.FullFile != "" {
-		files = append(files, o.FullFile)
-	}
-	if o.anteFile != "" {
-		files = append(files, o.anteFile)
-	}
 	t0 := time.Now()
 	last := solveResult{answer: "unknown", backend: "all"}
 	for _, f := range files {
@@ -719,4 +745,73 @@ func runObligationAgain(o *Obligation, opt solveOpts) {
 	if o.Result == "sat" {
 		o.Model = parseValues(last.output, o.valNames)
 	}
+}
+
+// termSymbols collects the uninterpreted symbols (variables, applications) of t.
+func termSymbols(t *Term, seen map[int]bool, out map[string]bool) {
+	if seen[t.id] {
+		return
+	}
+	seen[t.id] = true
+	if t.Op == OVar || t.Op == OApp {
+		out[t.Name] = true
+	}
+	for _, a := range t.Args {
+		termSymbols(a, seen, out)
+	}
+}
+
+// sliceRelevant keeps the path condition, the negated goal and the assertions reachable from
+// the goal's symbols within two hops, not counting symbols that occur almost everywhere.
+func sliceRelevant(as []*Term, o *Obligation) []*Term {
+	ng := Not(o.Goal)
+	syms := make([]map[string]bool, len(as))
+	freq := map[string]int{}
+	for i, a := range as {
+		syms[i] = map[string]bool{}
+		termSymbols(a, map[int]bool{}, syms[i])
+		for k := range syms[i] {
+			freq[k]++
+		}
+	}
+	common := func(k string) bool { return freq[k]*4 > len(as) }
+	rel := map[string]bool{}
+	keep := make([]bool, len(as))
+	for i, a := range as {
+		if a == ng || a == o.PC {
+			keep[i] = true
+			for k := range syms[i] {
+				rel[k] = true
+			}
+		}
+	}
+	for hop := 0; hop < 2; hop++ {
+		add := map[string]bool{}
+		for i := range as {
+			if keep[i] {
+				continue
+			}
+			for k := range syms[i] {
+				if rel[k] && !common(k) {
+					keep[i] = true
+					break
+				}
+			}
+			if keep[i] {
+				for k := range syms[i] {
+					add[k] = true
+				}
+			}
+		}
+		for k := range add {
+			rel[k] = true
+		}
+	}
+	var out []*Term
+	for i, a := range as {
+		if keep[i] || len(syms[i]) == 0 {
+			out = append(out, a)
+		}
+	}
+	return out
 }
